@@ -1,7 +1,7 @@
 (* C05 -- record-based splitting: from_df/to_df round trip, _make_pair is an exact partition,
    cross-folding puts every record in exactly one test part. *)
 From Coq Require Import ZArith List Bool Lia Permutation Arith PeanoNat.
-From LK Require Import Lib.SplitLib Lib.PyRound Gen.C05_holdout Model.C05_split.
+From LK Require Import Lib.SplitLib Gen.C05_holdout Model.C05_split.
 Import ListNotations.
 
 (* ---- group_by_user (ItemListCollection.from_df) and its flattening (to_df) ------------------------ *)
